@@ -8,7 +8,7 @@
 
 int vk_cur, vk_preempt_on, vk_preempted, vk_crash_at[2], vk_dead[2], vk_nsys[2];
 int vk_eintr_budget, vk_eintr_seen, vk_fault_budget, vk_fault_seen, vk_expect_noblock;
-int vk_bad_close, vk_bad_munmap, vk_preempt_at;
+int vk_bad_close, vk_bad_munmap, vk_preempt_at, vk_no_rescuer;
 static int vk_nested;
 
 /* errno: one per emulated process (`errno` expands to *__errno_location()) */
@@ -186,6 +186,8 @@ int vm_sem_wait(sem_t *s) {
   /* the caller blocks.  Sequential emulation: a blocked call never returns, the path ends here;
    * it is an error when the harness knows that a unit is available in the caller's counter */
   VASSERT(!vk_expect_noblock, "acquire does not block while units are available");
+  /* no other live process exists that could ever post (recovery after kills): blocking here is blocking for ever */
+  VASSERT(!vk_no_rescuer, "clean-up must not block: nobody is left to release the semaphore");
   VASSUME(0);
   return -1;
 }
@@ -451,6 +453,7 @@ int vm_semop(int id, struct sembuf *ops, size_t nops) {
   }
   if (vk_semval[obj] > 0) { vk_semval[obj]--; if (undo) vk_semadj[vk_cur][obj]++; return 0; }
   VASSERT(!vk_expect_noblock, "acquire does not block while units are available");
+  VASSERT(!vk_no_rescuer, "clean-up must not block: nobody is left to release the semaphore");
   VASSUME(0);
   return -1;
 }
